@@ -153,6 +153,10 @@ func NewReader(data io.ReaderAt, size int64, opt *ReaderOptions) (*Reader, error
 		if err == nil {
 			return false
 		}
+		if IsReadError(err) {
+			// an I/O failure is not a defect of the file: never recover from it
+			return true
+		}
 		if opt.ErrorHandling == ErrorHandlingReport {
 			var e *MalformedFileError
 			if errors.As(err, &e) {
